@@ -59,6 +59,8 @@ struct RoundSpec {
   bool detach_after;
   uint32_t nfuncs;     // compiler-virt: number of functions
   bool relocate;       // the finished program is relocated to a base address (as JitRuntime::add would do)
+  bool holder_logger;  // the logger is attached to the holder instead of the emitter
+  bool annotate;       // Compiler with a logger: DiagnosticOptions::kRAAnnotate
   int dangling;        // 0 none; 1..7: one-shot state (options / extra register / inline comment) is set after the round and never consumed
 };
 
@@ -74,6 +76,8 @@ RoundSpec decode(const Op& op) {
   s.nfuncs = uint32_t(1 + ((f >> 8) & 3));
   s.dangling = int((f >> 16) & 7);
   s.relocate = (f >> 19) & 1;
+  s.annotate = (f >> 20) & 1;
+  s.holder_logger = (f >> 21) & 1;
   if (s.mode == 2 && s.emitter_kind != kAsm) s.mode = 0;
   return s;
 }
@@ -155,11 +159,16 @@ bool generate(const RoundSpec& s, CodeHolder& code, BaseEmitter& e, gen::Recordi
   return layout(code, errors, s.relocate);
 }
 
-void setup_emitter(BaseEmitter& e, const RoundSpec& s, StringLogger* logger, gen::RecordingHandler* eh) {
-  e.set_logger(s.logger ? logger : nullptr);
+void setup_emitter(CodeHolder& code, BaseEmitter& e, const RoundSpec& s, StringLogger* logger, gen::RecordingHandler* eh) {
+  // the logger is the emitter's own or inherited from the holder (then the Assembler that serialises a Builder / Compiler
+  // logs as well - instructions with the register allocator's annotations)
+  bool on_holder = s.logger && s.holder_logger;
+  code.set_logger(on_holder ? logger : nullptr);
+  e.set_logger(s.logger && !on_holder ? logger : nullptr);
   e.set_error_handler(eh);
   if (s.validate) e.add_diagnostic_options(DiagnosticOptions::kValidateAssembler | DiagnosticOptions::kValidateIntermediate);
   else e.clear_diagnostic_options(DiagnosticOptions::kValidateAssembler | DiagnosticOptions::kValidateIntermediate);
+  if (s.annotate && e.is_compiler()) e.add_diagnostic_options(DiagnosticOptions::kRAAnnotate); else e.clear_diagnostic_options(DiagnosticOptions::kRAAnnotate);
 }
 
 void check_pristine_holder(CodeHolder& code, const char* when) {
@@ -205,7 +214,7 @@ std::string fresh_reference(const RoundSpec& s, const Knobs& fresh_knobs, uint64
     SIM_CHECK(err == Error::kOk, "c16:setup", "fresh CodeHolder::init failed: %u", unsigned(err));
     BaseEmitter& e = o.emitter(s.target, s.emitter_kind == kCompilerVirt ? kCompilerPhys : s.emitter_kind);
     RoundSpec fs = s; fs.logger = fresh_logger; fs.validate = fresh_validate;
-    setup_emitter(e, fs, &o.logger, &o.eh);
+    setup_emitter(*o.code, e, fs, &o.logger, &o.eh);
     err = o.code->attach(&e);
     SIM_CHECK(err == Error::kOk, "c16:setup", "fresh attach failed: %u", unsigned(err));
     bool done = generate(s, *o.code, e, o.eh, errors, false);
@@ -275,7 +284,7 @@ void execute_rounds(const Plan& plan) {
       // ---- attach -------------------------------------------------------------------------------------------
       int ekind = s.emitter_kind == kCompilerVirt ? kCompilerPhys : s.emitter_kind;
       BaseEmitter& e = o.emitter(s.target, ekind);
-      setup_emitter(e, s, &o.logger, &o.eh);
+      setup_emitter(code, e, s, &o.logger, &o.eh);
       (void)o.logger.content().clear();
       if (!e.is_initialized()) {
         Error err = code.attach(&e);
@@ -393,7 +402,7 @@ void execute_funcs(const Plan& plan) {
     Objects o(0);
     SIM_CHECK(o.code->init(Environment(gen::arch_of(s.target))) == Error::kOk, "c16:setup", "init failed");
     BaseEmitter& e = o.emitter(s.target, kCompilerPhys);
-    setup_emitter(e, s, &o.logger, &o.eh);
+    setup_emitter(*o.code, e, s, &o.logger, &o.eh);
     SIM_CHECK(o.code->attach(&e) == Error::kOk, "c16:setup", "attach failed");
     std::vector<uint32_t> which; for (uint32_t i = 0; i < n; i++) which.push_back(i);
     std::vector<std::pair<Label, Label>> ranges;
@@ -413,7 +422,7 @@ void execute_funcs(const Plan& plan) {
     SIM_CHECK(o.code->init(Environment(gen::arch_of(s.target))) == Error::kOk, "c16:setup", "init failed");
     BaseEmitter& e = o.emitter(s.target, kCompilerPhys);
     RoundSpec fs = s; fs.logger = !s.logger;
-    setup_emitter(e, fs, &o.logger, &o.eh);
+    setup_emitter(*o.code, e, fs, &o.logger, &o.eh);
     SIM_CHECK(o.code->attach(&e) == Error::kOk, "c16:setup", "attach failed");
     std::vector<std::pair<Label, Label>> ranges;
     bool ok = compile_funcs(s.target, *o.code, e, o.eh, s, {i}, ranges);
@@ -455,6 +464,8 @@ Plan generate_rounds_with(uint64_t seed, bool thorough, bool faults) {
     f |= uint64_t(r.below(kRecycleCount)) << 12;    // recycle action
     if (r.chance(1, 4)) f |= uint64_t(1 + r.below(7)) << 16;   // one-shot state left pending when the round ends
     if (r.chance(1, 3)) f |= uint64_t(1) << 19;                // the finished program is relocated
+    if (r.chance(1, 2)) f |= uint64_t(1) << 21;                // the logger is attached to the holder
+    if (r.chance(1, 2)) f |= uint64_t(1) << 20;                // Compiler: the register allocator annotates the code (visible in the log)
     op.a[3] = int64_t(f);
     if (faults && r.chance(1, 3)) {
       op.faults.push_back(sim::Fault{sim::kFaultArena, uint32_t(r.below(r.chance(1, 2) ? 40 : 400)), 0});
